@@ -62,7 +62,7 @@ def cha_targets(ctx):
             return []
         tr = fn["trait"].split("::")[-1]
         m = site.ck.split("::")[-1]
-        if tr == "Metrics":
+        if tr == A._mt():
             return []
         out = list(table.get((tr, m), []))
         d = defaults.get((tr, m))
@@ -90,7 +90,7 @@ def roles(ctx):
         it = (b.j.get("impl_trait") or "").split("::")[-1]
         ia = (b.j.get("impl_adt") or "").split("::")[-1]
         name = b.j.get("name")
-        if ia == "StateIterator" and (it, name) in (("Iterator", "next"), ("Drop", "drop")):
+        if (b.j.get("impl_adt") or "") == A.iterator_adt["path"] and (it, name) in (("Iterator", "next"), ("Drop", "drop")):
             I.append(b)
             continue
         if it == "Drop" and ia == "StoreImpl":
@@ -319,7 +319,7 @@ def l2_wait_for(ctx, rep):
                     if any(k_[0] == "discr" and k_[1][0] == "lockres" and v_.lstrip("*") == "Err" for k_, v_ in p.decisions):
                         continue
                     nj += 1
-                    ds = [e for e in p.events if (e.kind == "call" and e.ck == "std::mem::drop" and any(st[0] == "take" for a in e.args for st in subterms(a))) or (e.kind == "drop" and e.target is not None and any(st[0] == "take" for st in subterms(e.target)) and not any(st[0] == "take" and strip_wrap(st[1])[0] == "field" and "handle" in str(strip_wrap(st[1])[2]) for st in subterms(e.target)))]
+                    ds = [e for e in p.events if (e.kind == "call" and e.ck == "std::mem::drop" and any(st[0] == "take" for a in e.args for st in subterms(a))) or (e.kind == "drop" and e.target is not None and any(st[0] == "take" for st in subterms(e.target)) and not any(st[0] == "take" and strip_wrap(st[1])[0] == "field" and A.f_ch_handle == strip_wrap(st[1])[2] for st in subterms(e.target)))]
                     if not ds or p.events.index(ds[0]) > p.events.index(js[0]):
                         good = False
                 rep.check(good and nj > 0, R, "joined-thread-is-disconnected-first:%s" % fn, s.where, "the thread's channel is disconnected before the join on every path (%d), so its receive cannot block forever" % nj, "the join is not preceded by dropping the thread's sender: the thread may block in recv forever")
